@@ -99,6 +99,23 @@ def generate(ctx):
                                     ncols=(6 if quick else 8), cseed=int(rng.integers(0, 2 ** 31)))
             eta = ETAS[int(rng.integers(0, 6))]
             yield 'wrappers', dict(cfg, eta=eta, seed=int(rng.integers(0, 2 ** 31)), ncols=(4 if quick else 10))
+    # structured reference profiles: plateaus at the top / bottom / middle (piecewise constant),
+    # a single step, equal end values - profiles a random draw never produces
+    for K, plate in ([(5, 'top'), (5, 'bottom'), (4, 'step'), (6, 'ends')] if quick else
+                     [(k, pl) for k in (3, 5, 7) for pl in ('top', 'bottom', 'step', 'ends', 'middle')]):
+        b = _dyadic_boundaries(rng, K, 7).tolist()
+        t = (rng.integers(200 * 4, 300 * 4, size=K).astype(float) / 4)
+        if plate == 'top': t[:3] = t[0]
+        elif plate == 'bottom': t[-3:] = t[-1]
+        elif plate == 'step': t[:K // 2] = 230.0; t[K // 2:] = 270.0
+        elif plate == 'ends': t[-1] = t[0]
+        elif plate == 'middle': t[1:-1] = t[1]
+        ctx.count('tref:plateau-' + plate)
+        cfg = {'b': b, 'tref': t.tolist(), 'R': 287.0, 'kappa': 2.0 / 7, 'radius': 1.0}
+        yield 'weights', dict(cfg, dseed=int(rng.integers(0, 2 ** 31)))
+        eta = ETAS[int(rng.integers(0, 6))]
+        yield 'solve', dict(cfg, eta=eta, state={'kind': 'random', 'seed': int(rng.integers(0, 2 ** 31))},
+                            ncols=(6 if quick else 8), cseed=int(rng.integers(0, 2 ** 31)))
     # the two vertical operators alone, on more layer counts
     for K in ([4, 8] if quick else [4, 6, 8, 12, 16]):
         b = _dyadic_boundaries(rng, K, 7).tolist()
